@@ -274,7 +274,7 @@ class Evaluator(object):
             try:
                 for (c, pol) in p.conds:
                     if self.is_marker(c):
-                        continue
+                        return        # implicit-exception path: not modelled
                     if bool(self.ev(c)) != pol:
                         return
                 if p.kind == 'spread':
@@ -416,7 +416,8 @@ class Evaluator(object):
                 for cp in conds.items:
                     c, pol = cp.items
                     if self.is_marker(c):
-                        continue
+                        ok = False
+                        break
                     if bool(self.ev(c)) != pol.v:
                         ok = False
                         break
